@@ -1,1 +1,402 @@
-import AnyioModel.Kernel.Step
+/-
+C05  "Leaving a cancel scope leaves no residue in the task or the loop" on the kernel model.
+
+`Task.cancelling()` (`ncancel`) is tied, in every reachable state, to the ghost counters of the
+native requests (`nNative`, minus those user code took back, `nUserUncancel`), of the scope
+deliveries coming from scopes hosted by *other* tasks (`nForeign`), of own deliveries that were
+never paid back because the scope had no parent hosted by the same task (`nDropped`), and to the
+`_pending_uncancellations` of the scopes the task currently hosts (`pendSum`, defined in
+`Kernel/CountInv5.lean` as `Σ {pending s | s < nScopes, host s = some t, s active}`).
+
+Invariant and helper lemmas: `Kernel/CountInv.lean` .. `CountInv5.lean`; `WF`: `Kernel/WF*.lean`.
+-/
+import AnyioModel.Kernel.CountInv5
+import AnyioModel.Props.C04pure
+
+namespace AnyioModel.Kernel
+
+/-! ### the count -/
+
+/-- **C05_count.**  In every reachable state, for every task `t`: the outstanding native
+cancellation requests are exactly the native ones not taken back by user code, the deliveries from
+scopes hosted by other tasks, the own deliveries nobody will pay back, and what the active scopes
+hosted by `t` still owe; and user code never took back more than was requested natively. -/
+theorem C05_count {st : State} (hr : Reach st) (t : Nat) :
+    (st.tasks t).ncancel + (st.tasks t).nUserUncancel =
+      (st.tasks t).nNative + (st.tasks t).nForeign + (st.tasks t).nDropped + pendSum st t ∧
+    (st.tasks t).nUserUncancel ≤ (st.tasks t).nNative := by
+  have c := ci_reach hr
+  rw [pendSum_eq_pendH (wf_reach hr)]
+  exact ⟨c.count t, c.user t⟩
+
+/-- A scope that is not active owes nothing and has no host; a scope that was never entered is
+not active.  (So an exited scope keeps no claim on any task.) -/
+theorem C05_inactive_scope_clean {st : State} (hr : Reach st) (s : Nat) :
+    ((st.scopes s).active = false → (st.scopes s).pending = 0 ∧ (st.scopes s).host = none) ∧
+    ((st.scopes s).entered = false → (st.scopes s).active = false) := by
+  have w := wf_reach hr
+  have c := ci_reach hr
+  refine ⟨fun ha => ?_, fun he => (w.not_entered s he).1⟩
+  have hh : (st.scopes s).host = none := by
+    have := w.host_active s
+    rw [ha] at this
+    cases hx : (st.scopes s).host <;> simp_all
+  exact ⟨c.nohost s hh, hh⟩
+
+/-- Book-keeping of the ghost counters themselves: every scope delivery is either "own" (origin
+hosted by the task) or "foreign", and `cancelling()` is the number of `cancel()` calls minus the
+number of effective `uncancel()` calls. -/
+theorem C05_counters {st : State} (hr : Reach st) (t : Nat) :
+    (st.tasks t).nAnyio = (st.tasks t).nOwn + (st.tasks t).nForeign ∧
+    (st.tasks t).ncancel + (st.tasks t).nUncancel = (st.tasks t).nNative + (st.tasks t).nAnyio :=
+  ⟨(ci_reach hr).anyio t, (ci_reach hr).total t⟩
+
+/-- A scope never owes more than its host's `cancelling()`: the `uncancel()` loop of an absorbing
+`__exit__` is never cut short by the count reaching zero. -/
+theorem C05_pending_le_cancelling {st : State} (hr : Reach st) {s t : Nat}
+    (hh : (st.scopes s).host = some t) : (st.scopes s).pending ≤ (st.tasks t).ncancel :=
+  (ci_reach hr).pending_le hh
+
+/-- **C05_restored.**  Once no active scope hosted by `t` owes anything, `cancelling()` is back
+at what native asyncio code expects: its own requests not yet taken back, plus deliveries that
+belong to other tasks' scopes (paid back by nobody: F5 is about exactly those) and dropped ones. -/
+theorem C05_restored {st : State} (hr : Reach st) (t : Nat)
+    (h0 : ∀ s, (st.scopes s).host = some t → (st.scopes s).active = true →
+      (st.scopes s).pending = 0) :
+    (st.tasks t).ncancel =
+      (st.tasks t).nNative - (st.tasks t).nUserUncancel + (st.tasks t).nForeign +
+        (st.tasks t).nDropped := by
+  have w := wf_reach hr
+  have c := ci_reach hr
+  have hp : pendH st.nScopes st.scopes t = 0 := by
+    apply pendH_zero
+    intro s _
+    simp only [contrib]
+    split
+    · rename_i hh
+      refine h0 s hh ?_
+      rw [← w.host_active s, hh]; rfl
+    · rfl
+  have h1 := c.count t
+  have h2 := c.user t
+  omega
+
+/-- In particular a task that hosts no scope at all. -/
+theorem C05_restored_no_scope {st : State} (hr : Reach st) (t : Nat)
+    (h0 : ∀ s, (st.scopes s).host ≠ some t) :
+    (st.tasks t).ncancel =
+      (st.tasks t).nNative - (st.tasks t).nUserUncancel + (st.tasks t).nForeign +
+        (st.tasks t).nDropped :=
+  C05_restored hr t (fun s hh => absurd hh (h0 s))
+
+/-! ### `__exit__` -/
+
+/-- **C05_absorbing_exit_pays_back** (step-local, any `__exit__` performed by the running task in
+a reachable state): if the scope was cancelled and no cancelled enclosing scope is visible to it
+(the condition under which `__exit__` swallows, see `C04_exit_absorbs_iff`), `__exit__` lowers the
+host's `cancelling()` by exactly the scope's `_pending_uncancellations` — the subtraction is not
+truncated — and leaves the scope owing nothing. -/
+theorem C05_absorbing_exit_pays_back {st st' : State} {t s : Nat} {ev : ExcVal} {r : ExitResult}
+    (hr : Reach st) (hrun : st.running = some t) (h : exitScope st t s ev = some (st', r))
+    (hc : (st.scopes s).cancelCalled = true) (hv : parentVisible st s = false) :
+    (st.scopes s).pending ≤ (st.tasks t).ncancel ∧
+    (st'.tasks t).ncancel = (st.tasks t).ncancel - (st.scopes s).pending ∧
+    (st'.scopes s).pending = 0 := by
+  have w := wf_reach hr
+  have c := ci_reach hr
+  have hpar : (st.scopes s).parent ≠ some s := w.parent_ne
+  rw [exitScope_eq] at h
+  split at h
+  · contradiction
+  · rename_i hg
+    simp only [Option.some.injEq] at h
+    have hg' : (st.scopes s).active = true ∧ (st.scopes s).host = some t ∧
+        (st.tasks t).hasState = true ∧ (st.tasks t).scope = some s := by
+      simpa using hg
+    obtain ⟨e1, e2, e3, e4⟩ := exitCore_scope_self st t s hpar
+    have f1 := frame_restartInParent (exitCore st t s) s
+    have hmid : exitMid st t s = restartInParent (exitCore st t s) s := rfl
+    -- the decision is taken on the same flags
+    have hc' : ((restartInParent (exitCore st t s) s).scopes s).cancelCalled = true := by
+      rw [(f1.scopes s).cancelCalled, e2]; exact hc
+    have hv' : parentVisible (restartInParent (exitCore st t s) s) s = false := by
+      rw [← hmid, parentVisible_congr (exitMid_sameWalk st t s).nav]; exact hv
+    -- `_restart_cancellation_in_parent` touches neither `pending s` nor the running task
+    have hns : s ∉ ((exitCore st t s).scopes s).chain.tail := by
+      rw [e1, w.chain_spec s (w.active_entered s hg'.1)]
+      have := w.chain_nodup s
+      rw [w.chain_spec s (w.active_entered s hg'.1)] at this
+      simpa using (List.nodup_cons.mp this).1
+    have hp : ((restartInParent (exitCore st t s) s).scopes s).pending = (st.scopes s).pending := by
+      unfold restartInParent
+      rw [restartList_scope_other _ _ hns, e3]
+    have hn : ((restartInParent (exitCore st t s) s).tasks t).ncancel = (st.tasks t).ncancel := by
+      unfold restartInParent
+      rw [(restartList_running _ _ (by rw [e4]; exact hrun)).ncancel,
+        ((gf_exitCore st t s).tasks t).ncancel]
+    have ha := exitTail_absorb (restartInParent (exitCore st t s) s) t s ev hc' hv'
+    rw [h, hp, hn] at ha
+    exact ⟨c.pending_le hg'.2.1, ha.1, ha.2⟩
+
+/-- The same for an exit that swallows (`__exit__` returned `True`). -/
+theorem C05_swallowing_exit_pays_back {st st' : State} {t s : Nat} {ev : ExcVal}
+    (hr : Reach st) (hrun : st.running = some t)
+    (h : exitScope st t s ev = some (st', .swallowed)) :
+    (st.scopes s).pending ≤ (st.tasks t).ncancel ∧
+    (st'.tasks t).ncancel = (st.tasks t).ncancel - (st.scopes s).pending ∧
+    (st'.scopes s).pending = 0 := by
+  have := (C04_exit_absorbs_iff h).mp (.inl rfl)
+  exact C05_absorbing_exit_pays_back hr hrun h this.1 this.2.1
+
+/-- **C05_pointer.**  After any `__exit__` in a reachable state the task's current scope is the
+parent again, and the scope is inactive, has no host, no live timeout handle and owes nothing. -/
+theorem C05_pointer {st st' : State} {t s : Nat} {ev : ExcVal} {r : ExitResult}
+    (hr : Reach st) (h : exitScope st t s ev = some (st', r)) :
+    (st'.tasks t).scope = (st.scopes s).parent ∧
+    (st'.scopes s).active = false ∧
+    (st'.scopes s).host = none ∧
+    (st'.scopes s).timer = false ∧
+    (st'.scopes s).pending = 0 := by
+  obtain ⟨h1, h2, h3, h4⟩ := C04_exit_restores_pointer h
+  refine ⟨h1, h2, h3, h4, ?_⟩
+  have w := wf_reach hr
+  have hpar : (st.scopes s).parent ≠ some s := w.parent_ne
+  rw [exitScope_eq] at h
+  split at h
+  · contradiction
+  · simp only [Option.some.injEq] at h
+    have f1 := frame_restartInParent (exitCore st t s) s
+    have := exitTail_pending (restartInParent (exitCore st t s) s) t s ev
+      (by rw [(f1.scopes s).parent]
+          have := (gf_exitCore st t s)
+          cases hB : (st.scopes s).parent <;> cases hT : (st.scopes s).timer <;>
+            simp only [exitCore, hB, hT, setScope_scopes, setTask_scopes, unschedule_scopes,
+              Bool.false_eq_true, if_false, if_true] <;>
+            grind)
+    rw [h] at this
+    exact this
+
+/-- ... as seen by user code: the `.exit s ev` event. -/
+theorem C05_pointer_step {st st' : State} {s : Nat} {ev : ExcVal} {r : ExitResult}
+    (hr : Reach st) (hs : step st (.exit s ev) = some (st', .exit r)) :
+    ∃ t, st.running = some t ∧
+      (st'.tasks t).scope = (st.scopes s).parent ∧
+      (st'.scopes s).active = false ∧ (st'.scopes s).host = none ∧
+      (st'.scopes s).timer = false ∧ (st'.scopes s).pending = 0 := by
+  simp only [step] at hs
+  split at hs
+  · contradiction
+  · rename_i t hrun
+    split at hs
+    · contradiction
+    · split at hs
+      · simp at hs
+      · rename_i st1 r1 hex
+        simp only [Option.some.injEq, Prod.mk.injEq] at hs
+        obtain ⟨rfl, _⟩ := hs
+        exact ⟨t, hrun, C05_pointer hr hex⟩
+
+/-- ... as seen by user code: a `.exit s ev` event that swallows lowers `cancelling()` of the
+running task by exactly what the scope owed. -/
+theorem C05_swallowing_exit_step {st st' : State} {s : Nat} {ev : ExcVal}
+    (hr : Reach st) (hs : step st (.exit s ev) = some (st', .exit .swallowed)) :
+    ∃ t, st.running = some t ∧ (st.scopes s).pending ≤ (st.tasks t).ncancel ∧
+      (st'.tasks t).ncancel = (st.tasks t).ncancel - (st.scopes s).pending ∧
+      (st'.scopes s).pending = 0 := by
+  simp only [step] at hs
+  split at hs
+  · contradiction
+  · rename_i t hrun
+    split at hs
+    · contradiction
+    · split at hs
+      · simp at hs
+      · rename_i st1 r1 hex
+        simp only [Option.some.injEq, Prod.mk.injEq, Out.exit.injEq] at hs
+        obtain ⟨rfl, rfl⟩ := hs
+        exact ⟨t, hrun, C05_swallowing_exit_pays_back hr hrun hex⟩
+
+/-- Leaving the outermost scope of a task (by any `__exit__`, absorbing or not) leaves
+`cancelling()` at exactly the native requests not taken back plus what other tasks' scopes and
+dropped deliveries left: no scope of the task has any claim left. -/
+theorem C05_outermost_exit_restores {st st' : State} {s : Nat} {ev : ExcVal} {r : ExitResult}
+    (hr : Reach st) (hs : step st (.exit s ev) = some (st', .exit r))
+    (hout : (st.scopes s).parent = none) :
+    ∃ t, st.running = some t ∧
+      (st'.tasks t).ncancel =
+        (st'.tasks t).nNative - (st'.tasks t).nUserUncancel + (st'.tasks t).nForeign +
+          (st'.tasks t).nDropped := by
+  have hr' : Reach st' := Reachable.next hr hs
+  have w' := wf_reach hr'
+  obtain ⟨t, hrun, hsc, _⟩ := C05_pointer_step hr hs
+  refine ⟨t, hrun, C05_restored_no_scope hr' t (fun x hx => ?_)⟩
+  have hrun' : st'.running = some t := by
+    simp only [step, hrun] at hs
+    split at hs
+    · contradiction
+    · split at hs
+      · simp at hs
+      · rename_i st1 r1 hex
+        simp only [Option.some.injEq, Prod.mk.injEq] at hs
+        obtain ⟨rfl, _⟩ := hs
+        rw [exitScope_running hex]; exact hrun
+  rcases w'.host_scope x t hx with ⟨_, s0, h0, _⟩ | hd
+  · rw [hsc, hout] at h0; cases h0
+  · have := (w'.running_spec t).mp hrun'
+    rw [hd] at this; cases this
+
+/-- The timeout handle of the scope is cancelled by `__exit__`: if the scope had a live handle,
+every `timeout s` entry is gone from the timers and from the current batch, nothing else is
+removed, and nothing `__exit__` schedules is a timeout handle. -/
+theorem C05_timer_removed {st st' : State} {t s : Nat} {ev : ExcVal} {r : ExitResult}
+    (h : exitScope st t s ev = some (st', r)) :
+    st'.timers =
+      (if (st.scopes s).timer then st.timers.filter (·.2 ≠ .timeout s) else st.timers) ∧
+    st'.cur = (if (st.scopes s).timer then st.cur.filter (· ≠ .timeout s) else st.cur) ∧
+    ∃ extra, st'.ready =
+        (if (st.scopes s).timer then st.ready.filter (· ≠ .timeout s) else st.ready) ++ extra ∧
+      ∀ h ∈ extra, ∀ s', h ≠ Handle.timeout s' :=
+  (C04_exit_queues h).2
+
+/-! ### the delivery callback -/
+
+/-- **C05_deliver_stops.**  A `_deliver_cancellation` callback that finds no live task in its
+scope and no child scope to descend into (every child is shielded or cancelled itself) clears
+`_cancel_handle` and schedules nothing: it does not keep the loop busy (the issue #1111 shape).
+Nothing else changes either. -/
+theorem C05_deliver_stops {st st' : State} {o : Out} {s : Nat}
+    (hs : step st (.run (.deliver s)) = some (st', o))
+    (ht : ∀ u ∈ (st.scopes s).tasks, (st.tasks u).st = .done)
+    (hc : ∀ c ∈ (st.scopes s).children,
+      (st.scopes c).shield = true ∨ (st.scopes c).cancelCalled = true) :
+    (st'.scopes s).deliver = false ∧ st'.ready = st.ready ∧
+    st'.cur = st.cur.erase (.deliver s) ∧ st'.timers = st.timers ∧ st'.tasks = st.tasks ∧
+    (∀ x, x ≠ s → st'.scopes x = st.scopes x) := by
+  simp only [step] at hs
+  split at hs
+  · contradiction
+  · simp only [Option.some.injEq, Prod.mk.injEq] at hs
+    obtain ⟨rfl, _⟩ := hs
+    rw [deliver_idle { st with cur := st.cur.erase (Handle.deliver s) } s ht hc]
+    refine ⟨by simp, rfl, rfl, rfl, rfl, fun x hx => by simp [hx]⟩
+
+/-- After `__exit__` the scope has no task of its own left if the host was its only member, so a
+still-scheduled delivery handle of an exited plain scope stops at its next run. -/
+theorem C05_exited_scope_deliver_stops {st st' st'' : State} {t s : Nat} {ev : ExcVal}
+    {r : ExitResult} {o : Out} (hr : Reach st) (h : exitScope st t s ev = some (st', r))
+    (hone : (st.scopes s).tasks = [t]) (hch : (st.scopes s).children = [])
+    (hs : step st' (.run (.deliver s)) = some (st'', o)) :
+    (st''.scopes s).deliver = false ∧ st''.ready = st'.ready := by
+  have w := wf_reach hr
+  have hl := (C04_exit_relinks h).2.1 w.parent_ne
+  have := C05_deliver_stops hs (by rw [hl.1, hone]; simp) (by rw [hl.2, hch]; simp)
+  exact ⟨this.1, this.2.1⟩
+
+/-! ### non-vacuity: concrete runs -/
+
+/-- A scope cancelled by its own host, re-delivered in two consecutive cycles: the host's
+`cancelling()` is 2 and the scope owes 2. -/
+example :
+    (runFrom step init
+      [.mkScope false none, .enter 0, .cancel 0, .yield,
+       .beginCycle 0, .run (.deliver 0), .run (.step 0),
+       .yield, .beginCycle 0, .run (.deliver 0), .run (.step 0)]).map
+      (fun st => ((st.tasks 0).ncancel, (st.scopes 0).pending, pendSum st 0, (st.tasks 0).nOwn)) =
+      some (2, 2, 2, 2) := by decide
+
+/-- ... in that state the hypotheses of `C05_absorbing_exit_pays_back` hold and `__exit__` swallows. -/
+example :
+    (runFrom step init
+      [.mkScope false none, .enter 0, .cancel 0, .yield,
+       .beginCycle 0, .run (.deliver 0), .run (.step 0),
+       .yield, .beginCycle 0, .run (.deliver 0), .run (.step 0)]).map
+      (fun st => (st.running, (st.scopes 0).cancelCalled, parentVisible st 0,
+        (exitScope st 0 0 (.one .cancelAnyio)).map (·.2))) =
+      some (some 0, true, false, some .swallowed) := by decide
+
+/-- ... and after the exit `cancelling()` is 0 again, the scope is inactive, hostless and owes
+nothing; its delivery handle is still scheduled. -/
+example :
+    (runFrom step init
+      [.mkScope false none, .enter 0, .cancel 0, .yield,
+       .beginCycle 0, .run (.deliver 0), .run (.step 0),
+       .yield, .beginCycle 0, .run (.deliver 0), .run (.step 0),
+       .exit 0 (.one .cancelAnyio)]).map
+      (fun st => ((st.tasks 0).ncancel, (st.scopes 0).pending, (st.scopes 0).active,
+        (st.scopes 0).host, (st.tasks 0).scope)) =
+      some (0, 0, false, none, none) := by decide
+
+example :
+    (runFrom step init
+      [.mkScope false none, .enter 0, .cancel 0, .yield,
+       .beginCycle 0, .run (.deliver 0), .run (.step 0),
+       .yield, .beginCycle 0, .run (.deliver 0), .run (.step 0),
+       .exit 0 (.one .cancelAnyio)]).map
+      (fun st => (st.ready, (st.scopes 0).tasks, (st.scopes 0).children)) =
+      some ([.deliver 0], [], []) := by decide
+
+/-- ... which stops at its next run (`C05_deliver_stops`): flag cleared, nothing scheduled. -/
+example :
+    (runFrom step init
+      [.mkScope false none, .enter 0, .cancel 0, .yield,
+       .beginCycle 0, .run (.deliver 0), .run (.step 0),
+       .yield, .beginCycle 0, .run (.deliver 0), .run (.step 0),
+       .exit 0 (.one .cancelAnyio), .yield, .beginCycle 0, .run (.deliver 0)]).map
+      (fun st => ((st.scopes 0).deliver, st.ready, st.cur)) =
+      some (false, [], [.step 0]) := by decide
+
+/-- Nested scopes of one host, both cancelled: the inner scope collects two deliveries, does not
+absorb (its cancelled parent is visible) and hands its count to the parent ... -/
+example :
+    (runFrom step init
+      [.mkScope false none, .mkScope false none, .enter 0, .enter 1, .cancel 1, .cancel 0, .yield,
+       .beginCycle 0, .run (.deliver 1), .run (.step 0),
+       .yield, .beginCycle 0, .run (.deliver 1), .run (.step 0),
+       .exit 1 (.one .cancelAnyio)]).map
+      (fun st => ((st.tasks 0).ncancel, (st.scopes 0).pending, (st.scopes 1).pending,
+        (st.scopes 1).host, pendSum st 0)) =
+      some (2, 2, 0, none, 2) := by decide
+
+/-- ... whose absorbing exit pays everything back. -/
+example :
+    (runFrom step init
+      [.mkScope false none, .mkScope false none, .enter 0, .enter 1, .cancel 1, .cancel 0, .yield,
+       .beginCycle 0, .run (.deliver 1), .run (.step 0),
+       .yield, .beginCycle 0, .run (.deliver 1), .run (.step 0),
+       .exit 1 (.one .cancelAnyio), .exit 0 (.one .cancelAnyio)]).map
+      (fun st => ((st.tasks 0).ncancel, (st.scopes 0).pending, (st.scopes 1).pending,
+        pendSum st 0, (st.tasks 0).nDropped)) =
+      some (0, 0, 0, 0, 0) := by decide
+
+/-- The F5 shape: a child's `TaskHandle.cancel()` is delivered to the child (own delivery), then
+the group scope is cancelled; the child's handle scope exits without absorbing and its parent (the
+group scope) is hosted by another task: the count is dropped (`nDropped`), the group's host is not
+charged, and the equation of `C05_count` holds for both tasks. -/
+example :
+    (runFrom step init
+      [.mkGroup, .groupEnter 0, .spawn 0, .yield, .beginCycle 0, .run (.step 1), .yield,
+       .run (.step 0), .handleCancel 1, .cancel 0, .yield, .beginCycle 0, .run (.step 1),
+       .finish (.one .cancelAnyio)]).map
+      (fun st => (((st.tasks 1).ncancel, (st.tasks 1).nDropped, (st.tasks 1).nOwn, pendSum st 1),
+        ((st.tasks 0).ncancel, (st.scopes 0).pending, pendSum st 0))) =
+      some ((1, 1, 1, 0), (0, 0, 0)) := by decide
+
+/-- A delivery from a scope hosted by another task is "foreign": the group scope (hosted by the
+root task) cancels the child; nobody will uncancel it. -/
+example :
+    (runFrom step init
+      [.mkGroup, .groupEnter 0, .spawn 0, .yield, .beginCycle 0, .run (.step 1), .yield,
+       .run (.step 0), .cancel 0]).map
+      (fun st => ((st.tasks 1).ncancel, (st.tasks 1).nForeign, (st.tasks 1).nOwn, pendSum st 1,
+        (st.scopes 0).pending)) =
+      some (1, 1, 0, 0, 0) := by decide
+
+/-- Native `cancel()` / `uncancel()` by user code; `uncancel()` without a native request is outside
+the API discipline (not enabled). -/
+example :
+    (runFrom step init [.nativeCancel 0, .uncancel]).map
+      (fun st => ((st.tasks 0).ncancel, (st.tasks 0).nNative, (st.tasks 0).nUserUncancel)) =
+      some (0, 1, 1) ∧
+    (runFrom step init [.uncancel]).isNone = true := by decide
+
+end AnyioModel.Kernel
